@@ -27,6 +27,7 @@ SHARD_TIMEOUT = {"quick": 900, "thorough": 3000}
 
 ALIAS_STRINGS = ["A", "Bee", "x.y", "back\\slash", "\\1", "[br]", "(p)", "a+b", "", "Ümlaut", "$end"]
 SMALL = [
+    ["a", "a.ab", "a.ab.a", "a.b"],
     ["r", "r.a", "r.ab", "r.a.x"],
     ["r", "r.a", "r.a.b", "r.a.b.c", "r.aa"],
     ["r", "r.a_b", "r.a", "r.a0"],
@@ -69,7 +70,7 @@ def run_shard(spec, acc):
         acc.sample({"modules": SMALL[0], "aliases": {"r.a": "AL0"}, "expected_labels": {"r": "r", "r.a": "AL0", "r.ab": "r.ab", "r.a.x": "AL0.x"}})
         return
     for i in range(spec["n"]):
-        mods = random_tree(rnd, 4, 12, names=["a", "ab", "a_b", "aa", "a0", "ba", "b", "x", "util", "u1"])
+        mods = random_tree(rnd, 4, 12, root=rnd.choice(["r", "a", "u", "b", "ab"]), names=["a", "ab", "a_b", "aa", "a0", "ba", "b", "x", "util", "u1"])
         imps = random_imports(rnd, mods, k_max=5)
         ev = build(mods, imps)
         k = rnd.randint(0, min(4, len(mods)))
@@ -110,5 +111,5 @@ def floors(acc, tier):
         if acc.counters[c] < n:
             why.append(f"{c}: only {acc.counters[c]}")
     acc.flags["exhaustive"] = bool(acc.flags.get("exhaustive_alias_subsets"))
-    acc.flags["exhaustive_subspaces"] = "all alias subsets of three small trees (with prefix-sibling names) x {no option, spacing, pass-through options}"
+    acc.flags["exhaustive_subspaces"] = "all alias subsets of four small trees (with prefix-sibling names) x {no option, spacing, pass-through options}"
     return why
